@@ -652,6 +652,10 @@ KERNEL_GROUPS['KernelsGpo'] = [
     ('var_stats.py', 'clamp_var_stats_collection', 'k_clamp_var_stats_collection', None),
     ('genomic_position_offsets.py', 'GenomicPositionOffsets.__post_init__', 'k_gpo_post_init', 'kgpo'),
     ('genomic_position_offsets.py', 'GenomicPositionOffsets.from_var_stats', 'k_gpo_from_var_stats', 'kgpo'),
+    # the overlap test of a REF-coordinate variant: Variant.any_pos takes the bound method ref_pos_overlaps_var as a callback
+    ('variant.py', 'Variant.ref_range', 'kg_var_ref_range', 'variant'),
+    ('variant.py', 'Variant.any_pos', 'k_var_any_pos', 'variant'),
+    ('genomic_position_offsets.py', 'GenomicPositionOffsets.ref_var_overlaps_var', 'k_gpo_ref_var_overlaps_var', 'kgpo'),
     # array_utils.get_prev_index (a while loop that returns from inside): proved equal to the definition the SEARCH_F table is read with
     ('array_utils.py', 'get_prev_index', 'k_get_prev_index', None),
     # REF -> ALT (the nearest-position search goes through the SEARCH_F table to two array_utils functions: Model/PyLoop.v u8_prev_index / u8_next_index)
